@@ -10,7 +10,7 @@ import tempfile
 import numpy as np
 from hypothesis import strategies as st
 
-from ..core import SubCheck, Violation, cut, quiet, require
+from ..core import EVIDENCE_DIR, VERIF_DIR, HarnessError, SubCheck, Violation, cut, quiet, require
 from ..strategies import bfloat, ulp_step
 
 PROPERTY_ID = "C15"
@@ -365,6 +365,91 @@ def body_month(case):
     return {"accepted", kind}
 
 
+# ---- coverage-guided fuzzing of the TOML reader (atheris / libFuzzer) --------------------------------
+
+
+def _fuzz_cases(tier):
+    yield {"runs": 20000 if tier == "quick" else 1500000, "seed": int(os.environ.get("VERIF_SEED", "1") or "1"), "max_len": 2048}
+
+
+def _seed_corpus(d):
+    from nuspacesim.config import NssConfig, create_toml
+
+    repo = os.environ.get("NSSVERIF_REPO", "/repo")
+    sample = os.path.join(repo, "sample_input_file.toml")
+    if os.path.exists(sample):
+        shutil.copy(sample, os.path.join(d, "sample.toml"))
+    variants = [
+        {},
+        {"simulation": {"spectrum": {"id": "powerspectrum", "index": 2.2, "lower_bound": 7.0, "upper_bound": 11.0}, "cloud_model": {"id": "monocloud", "altitude": 3.5}, "mode": "Target"}},
+        {"simulation": {"cloud_model": {"id": "pressure_map", "month": 7, "version": "0"}}, "detector": {"name": 'q"uo\\te \u00e9', "radio": {"low_frequency": "0.2 GHz", "high_frequency": "1200 MHz"}}},
+    ]
+    for i, v in enumerate(variants):
+        create_toml(os.path.join(d, f"seed{i}.toml"), NssConfig(**v))
+    with open(os.path.join(d, "tiny.toml"), "w") as f:
+        f.write('title = "x"\n[detector.initial_position]\naltitude = "5 km"\n')
+    with open(os.path.join(d, "empty.toml"), "w") as f:
+        f.write("")
+
+
+def body_fuzz(case):
+    import json
+    import subprocess
+    import sys
+
+    if "toml_hex" in case:  # replay of a saved failing input, without the fuzzer
+        sys.path.insert(0, os.path.join(VERIF_DIR, ".deps"))
+        from ..fuzz import toml_target
+
+        try:
+            toml_target.check_bytes(bytes.fromhex(case["toml_hex"]))
+        except toml_target.Finding as e:
+            raise Violation(str(e)) from e
+        return {"replayed_input"}
+    work = tempfile.mkdtemp(prefix="nssverif_c15_fuzz_")
+    try:
+        corpus = os.path.join(work, "corpus")
+        os.makedirs(corpus)
+        _seed_corpus(corpus)
+        stats, crash = os.path.join(work, "stats.json"), os.path.join(work, "crash.bin")
+        env = dict(os.environ, NSSVERIF_FUZZ_STATS=stats, NSSVERIF_FUZZ_CRASH=crash, PYTHONPATH=os.pathsep.join([VERIF_DIR, os.path.join(VERIF_DIR, ".deps"), os.environ.get("PYTHONPATH", "")]))
+        cmd = [sys.executable, "-m", "nssverif.fuzz.toml_target", f"-runs={case['runs']}", f"-seed={case['seed'] or 1}", f"-max_len={case['max_len']}", f"-dict={os.path.join(VERIF_DIR, 'nssverif', 'fuzz', 'toml.dict')}", f"-artifact_prefix={work}/", "-print_final_stats=1", corpus]
+        r = subprocess.run(cmd, env=env, cwd=VERIF_DIR, capture_output=True, text=True, timeout=7200)
+        if not os.path.exists(stats):
+            raise HarnessError(f"the fuzz target produced no statistics (exit {r.returncode}): {r.stderr[-1500:]}")
+        st_ = json.load(open(stats))
+        if os.path.exists(crash):
+            data = open(crash, "rb").read()
+            why = open(crash + ".txt").read() if os.path.exists(crash + ".txt") else "fuzz target failed"
+            raise Violation(f"{why} [found by the coverage-guided fuzzer after {st_['executions']} executions; input {data[:120]!r}]", replay_case={"toml_hex": data.hex()})
+        if r.returncode != 0:
+            raise HarnessError(f"the fuzz target exited with {r.returncode} without a finding: {r.stderr[-1500:]}")
+        os.makedirs(EVIDENCE_DIR, exist_ok=True)
+        cov = [ln for ln in r.stderr.splitlines() if " cov: " in ln]
+        st_["libfuzzer_last_status"] = cov[-1].strip() if cov else ""
+        with open(os.path.join(EVIDENCE_DIR, ".c15_fuzz_stats.json"), "w") as f:
+            json.dump(st_, f)
+    finally:
+        shutil.rmtree(work, ignore_errors=True)
+    labels = {"fuzz"}
+    if st_["accepted_non_default"] >= 2:
+        labels.add("accepted_non_default_configs")
+    if st_["rejected_validation"] >= 1 and st_["rejected_toml"] >= 1:
+        labels.add("both_rejection_kinds")
+    return labels
+
+
+def extra_evidence():
+    import json
+
+    p = os.path.join(EVIDENCE_DIR, ".c15_fuzz_stats.json")
+    if os.path.exists(p):
+        st_ = json.load(open(p))
+        os.remove(p)
+        return {"toml_fuzz": {k: st_[k] for k in ("executions", "accepted", "distinct_accepted", "accepted_non_default", "rejected_toml", "rejected_validation", "libfuzzer_last_status")}, "toml_fuzz_samples": st_.get("samples", [])[:3]}
+    return {}
+
+
 def _case_variants(s):
     return st.sampled_from([s, s.upper(), s.capitalize(), s.lower(), s.swapcase()])
 
@@ -453,5 +538,14 @@ SUBCHECKS = [
         lambda labels: "accept" in labels or "reject" in labels,
         {"quick": 500, "thorough": 20000},
         doc="three-way month reference: must-accept / must-reject / don't-care",
+    ),
+    SubCheck(
+        "toml_fuzz",
+        None,
+        body_fuzz,
+        lambda labels: "accepted_non_default_configs" in labels or "replayed_input" in labels,
+        {"quick": 1},
+        doc="atheris/libFuzzer on config_from_toml (20 000 executions quick, 1 500 000 thorough; corpus = shipped sample + generated configurations; dictionary of keys/units): rejected cleanly or accepted-and-round-trips",
+        exhaustive=_fuzz_cases,
     ),
 ]
